@@ -301,3 +301,145 @@ func H15_env() {
 	}
 	sv.Reach("checked")
 }
+
+// untagged pointer fields: non-nil they are plain values
+type hPtrs struct {
+	P *float64 `yae:"p"`
+	Q *hLeaf   `yae:"q"`
+}
+type hHolder struct {
+	O  *hPtrs           `yae:"o,maybe"`
+	Xs []hPtrs          `yae:"xs"`
+	M  map[string]hPtrs `yae:"m"`
+	A  [1]hPtrs         `yae:"a"`
+}
+
+// H15_shape: the type of a Go value whose nil-able parts are non-nil or
+// declared optional depends on the Go type only: it is the same whether a
+// container of structs is empty or populated and whether an optional struct
+// pointer is nil or set - so an expression compiled against one sample
+// accepts the other.
+func H15_shape() {
+	mk := func(name string, filled bool) hHolder {
+		f := sv.Float64(name + ".p")
+		leaf := someLeaf(name + ".q")
+		one := hPtrs{P: &f, Q: &leaf}
+		h := hHolder{Xs: []hPtrs{}, M: map[string]hPtrs{}, A: [1]hPtrs{one}}
+		if filled {
+			h.O = &one
+			h.Xs = []hPtrs{one}
+			h.M["k"] = one
+		}
+		return h
+	}
+	which := sv.Choice("part", 4) // which part differs between the two samples
+	a, b := mk("a", false), mk("b", false)
+	full := mk("f", true)
+	switch which {
+	case 0:
+		b.O = full.O
+	case 1:
+		b.Xs = full.Xs
+	case 2:
+		b.M = full.M
+	default:
+		a, b = full, mk("b", true)
+	}
+	var ta, tb *types.Type
+	var va, vb *val.Val
+	var e1, e2, e3, e4 error
+	cls := sv.Outcome(func() {
+		ta, e1 = conv.TypeOf(a)
+		tb, e2 = conv.TypeOf(b)
+		va, e3 = conv.ValOf(a)
+		vb, e4 = conv.ValOf(b)
+	})
+	sv.Assert("conversion-does-not-panic", cls == "ok")
+	sv.Assert("converts", e1 == nil && e2 == nil && e3 == nil && e4 == nil)
+	if cls != "ok" || e1 != nil || e2 != nil || e3 != nil || e4 != nil {
+		return
+	}
+	if !RefTypeEq(ta, tb) {
+		sv.Logf("types differ: %s  vs  %s", ta.String(), tb.String())
+	}
+	sv.Assert("type-is-the-same-for-every-value-of-the-go-type", RefTypeEq(ta, tb))
+	sv.Assert("type-of-value-equals-reported-type", RefTypeEq(va.Type, ta) && RefTypeEq(vb.Type, tb))
+	sv.Assert("well-formed", RefWellTyped(va, va.Type) == "" && RefWellTyped(vb, vb.Type) == "")
+	inner := ObjT([]string{"p", "q"}, []*types.Type{tNum, tLeaf})
+	want := ObjT([]string{"o", "xs", "m", "a"}, []*types.Type{types.Maybe(inner), types.List(inner), types.Map(tStr, inner), types.List(inner)})
+	sv.Assert("type-is-the-one-the-go-type-dictates", RefTypeEq(ta, want))
+	sv.Reach("compared")
+}
+
+type hP struct {
+	P *int `yae:"p"`
+}
+type hX struct {
+	X interface{} `yae:"x"`
+}
+
+// H15_mixed: containers whose Go element type is concrete but whose elements
+// convert to different types (through a nested interface value, or a pointer
+// field that is nil in one element and set in another) are inconsistent data:
+// an error, never an ill-formed value - whichever element Go's map iteration
+// visits first. Their consistent twins convert.
+func H15_mixed() {
+	i := sv.Int("i")
+	var v interface{}
+	wantErr := true
+	switch sv.Choice("case", 12) {
+	case 0:
+		v = map[string][]interface{}{"a": {1}, "b": {"x"}}
+	case 1:
+		v = map[string]hP{"a": {nil}, "b": {&i}}
+	case 2:
+		v = map[int]hX{1: {1}, 2: {"s"}}
+	case 3:
+		v = []hP{{nil}, {&i}}
+	case 4:
+		v = [][]interface{}{{1}, {"x"}}
+	case 5:
+		v = map[string]map[string]interface{}{"a": {"k": 1}, "b": {"k": "s"}}
+	case 6:
+		v = map[string]*hX{"a": {true}, "b": {2.5}, "c": {true}}
+	case 7:
+		v = map[string][]interface{}{"a": {1}, "b": {2.5}}
+		wantErr = false
+	case 8:
+		v = map[string]hP{"a": {&i}, "b": {&i}}
+		wantErr = false
+	case 9:
+		v = map[int]hX{1: {1}, 2: {uint8(7)}}
+		wantErr = false
+	case 10:
+		v = []hP{{&i}, {&i}}
+		wantErr = false
+	default:
+		v = map[string]hP{"a": {nil}, "b": {nil}}
+		wantErr = false
+	}
+	sv.MapOrder(1)
+	var r *val.Val
+	var ty *types.Type
+	var err, terr error
+	cls := sv.Outcome(func() {
+		r, err = conv.ValOf(v)
+		ty, terr = conv.TypeOf(v)
+	})
+	sv.MapOrder(0)
+	sv.Assert("conversion-does-not-panic", cls == "ok")
+	if cls != "ok" {
+		return
+	}
+	if err == nil {
+		sv.Assert("a-converted-value-is-well-formed", r != nil && RefWellTyped(r, r.Type) == "")
+		sv.Assert("type-of-value-equals-reported-type", terr != nil || RefTypeEq(ty, r.Type))
+	}
+	if wantErr {
+		sv.Reach("inconsistent")
+		sv.Assert("inconsistent-data-reported-as-an-error", err != nil && r == nil)
+	} else {
+		sv.Reach("consistent")
+		sv.Assert("accepted", err == nil && r != nil)
+	}
+}
